@@ -36,6 +36,9 @@ CONSTANTS Entities,        \* signing names
 
 Absent   == "absent"
 Unsigned == "unsigned"
+\* the key of an entry that is not a signature by any key a verifier holds: well-formed base64 that is not an
+\* ed25519 signature of anything, or of the wrong length (written by ForeignSign with this pseudo key)
+Junk     == "junk"
 
 SignOps   == {"Sign", "ForeignSign"}
 TamperOps == {"Mutate", "Insert", "Delete", "NestedEdit"}
@@ -130,7 +133,8 @@ CanSign == NSigns < MaxSigns /\ NSigns < start.signs
 
 Sign(e, kid, k) == CanSign /\ Do(<<"Sign", e, kid, k>>)
 
-\* --- another entity (another implementation) adds its signature by editing the signatures member ---
+\* --- another entity (another implementation) adds its signature by editing the signatures member;
+\*     with k = Junk what it adds is not a signature under any key of the universe ---
 ForeignSign(e, kid, k) == CanSign /\ Do(<<"ForeignSign", e, kid, k>>)
 
 \* --- tampering: single-member changes -------------------------------------
@@ -154,6 +158,7 @@ Init ==
 
 Next ==
     \/ \E e \in Entities, kid \in KeyIDs, k \in Keys : Sign(e, kid, k) \/ ForeignSign(e, kid, k)
+    \/ \E e \in Entities, kid \in KeyIDs : ForeignSign(e, kid, Junk)
     \/ \E m \in PlainMembers, v \in Vals : Mutate(m, v) \/ Insert(m, v)
     \/ \E m \in NestedMembers, v \in NVals : NestedEdit(m, v) \/ Insert(m, v)
     \/ \E m \in PlainMembers \cup NestedMembers : Delete(m)
@@ -222,7 +227,7 @@ TypeOK ==
     /\ NSigns <= MaxSigns
     /\ pres \in Presentations
     /\ DOMAIN sigs \subseteq Entities \X KeyIDs
-    /\ \A x \in DOMAIN sigs : sigs[x].key \in Keys
+    /\ \A x \in DOMAIN sigs : sigs[x].key \in Keys \cup {Junk}
     /\ DOMAIN obj = PlainMembers \cup NestedMembers \cup {Unsigned}
     /\ \A m \in PlainMembers : obj[m] \in Vals \cup {Absent}
     /\ \A m \in NestedMembers : obj[m] \in NVals \cup {Absent}
